@@ -8,5 +8,6 @@ CONSTANTS
   Outif <- OutifPinned
   TIE = FALSE
   ORACLE = TRUE
+  BigCases <- BigNone
 INVARIANT PropertyHolds
 CHECK_DEADLOCK FALSE
